@@ -1,6 +1,6 @@
 (** C04 — property theorems only. The model is C03/Model.v ([check_operation_document]); [spec_valid] is the
     reference validator of C03/Spec.v (every implemented rule on every syntactic position). *)
-From V Require Import Base.Util Gql.Ast C03.Model C03.Spec C03.Witness C03.Proofs C03.Proofs2 C03.Proofs3 C04.Proofs C04.Proofs2.
+From V Require Import Base.Util Gql.Ast C03.Model C03.Spec C03.Witness C03.Proofs C03.Proofs2 C03.Proofs3 C04.Proofs C04.Proofs2 C04.Proofs3.
 
 (** check_type_compatibility accepts exactly the pairs the specification's AreTypesCompatible accepts *)
 Theorem C04_type_compat_complete : forall vt lt, types_compatible vt lt = true -> type_compat vt lt = true.
@@ -69,6 +69,37 @@ Theorem C04_complete_vis_guard_satisfiable :
   schema_wf w_schema_0 = true /\ schema_closed w_schema_0 = true /\ doc_fine_vis w_schema_0 w_doc_14 = true.
 Proof. repeat split; vm_compute; reflexivity. Qed.
 Print Assumptions C04_complete_vis_guard_satisfiable.
+
+(** every-position reading implies visible-site reading: the sites reached by following spreads from an operation are
+    sites of the operation or of fragment definitions the reference validator's closure reaches (so its variable rules
+    cover them), shallow variable uses are deep ones, and a cycle met on the way is a cycle of the fragment graph *)
+Theorem C04_full_to_vis : forall S D,
+  schema_wf S = true -> (forall r, rule_ok S D r = true) -> forall r, rule_ok_vis S D r = true.
+Proof. intros S D Hw Hf r. exact (full_to_vis S D Hw Hf r). Qed.
+Print Assumptions C04_full_to_vis.
+
+(** C04_complete: a document the reference validator finds valid (every implemented rule on every syntactic position)
+    is accepted by the model with no diagnostic — and the model does not run out of fuel on it.
+    Guards, all computable and evaluated on every generated case: [schema_wf], [schema_closed] ("the schema passed
+    check"); [doc_guard]: no variable usage relies on a default value of its position (the clause of
+    IsVariableUsageAllowed the code lacks: C04_variable_default_position_refuted), written argument lists are
+    non-empty (grammar), root operation types are object types. The subscription rule: the specification counts
+    response keys, the code counts selections; the code's count is a hypothesis, and `subscription { s s }`
+    (C04_subscription_same_field_refuted) is the gap between the two. *)
+Theorem C04_complete : forall S D,
+  schema_wf S = true -> schema_closed S = true ->
+  spec_valid S D = true -> doc_guard S D = true ->
+  (forall o, In o (doc_ops D) -> op_type o = Subscription ->
+     count_fields (doc_fuel D) (doc_frags D) [] (op_sel o) <= 1) ->
+  check_operation_document S D = [].
+Proof. exact complete_full. Qed.
+Print Assumptions C04_complete.
+
+Theorem C04_complete_guard_satisfiable :
+  schema_wf w_schema_0 = true /\ schema_closed w_schema_0 = true
+  /\ spec_valid w_schema_0 w_doc_14 = true /\ doc_guard w_schema_0 w_doc_14 = true.
+Proof. repeat split; vm_compute; reflexivity. Qed.
+Print Assumptions C04_complete_guard_satisfiable.
 
 (** spec-valid documents the current code rejects (known findings) *)
 Theorem C04_variable_default_position_refuted :
